@@ -21,6 +21,11 @@ class Scope:
         self.vars = dict(parent.vars) if parent else {}   # name -> kind
         self.counter = parent.counter if parent else [0]
         self.frozen = set(parent.frozen) if parent else set()   # vars that must not be mutated / reassigned
+        # names a function body sees through capture, and whether the code position is inside a block of that function that
+        # may not run: assigning a captured name there makes it a local of the whole function that is unassigned on the paths
+        # that skip the block (Koto scopes statically by parse order; reading it afterwards is unspecified) -- never generated
+        self.captured = set(parent.captured) if parent else set()
+        self.cond = parent.cond if parent else False
 
     def fresh(self, prefix="v"):
         self.counter[0] += 1
@@ -28,6 +33,9 @@ class Scope:
 
     def of_kind(self, *kinds):
         return [v for v, k in self.vars.items() if k in kinds]
+
+    def assignable(self, v):
+        return v not in self.frozen and not (self.cond and v in self.captured)
 
     def mutable(self, *kinds):
         return [v for v, k in self.vars.items() if k in kinds and v not in self.frozen]
@@ -237,7 +245,7 @@ class Gen:
         r = self.r
         kind = self.any_kind()
         # assign to a fresh variable, or re-assign an existing one (possibly changing its kind)
-        cands = [v for v in sc.vars if v not in sc.frozen]
+        cands = [v for v in sc.vars if sc.assignable(v)]
         if cands and r.random() < 0.4:
             name = r.choice(cands)
         else:
@@ -296,7 +304,7 @@ class Gen:
         if c < 0.22:
             return self.assign(sc, min(depth, 2) + 1)
         if c < 0.30:
-            vs = sc.mutable("num")
+            vs = [v for v in sc.mutable("num") if sc.assignable(v)]
             if vs:
                 v = r.choice(vs)
                 e = self.expr(sc, "num", 1)
@@ -362,6 +370,7 @@ class Gen:
     def body(self, sc, depth, in_loop, n=None):
         """A block; assignments made inside do not count as definitely assigned outside."""
         inner = Scope(sc)
+        inner.cond = True
         k = n if n is not None else self.r.randrange(1, 4)
         xs = []
         for _ in range(k):
